@@ -64,7 +64,7 @@ Proof.
     + destruct (k_limit k) eqn:L; destruct H as [H|[]]; subst w; simpl; (split; [reflexivity|]).
       * left. split; [reflexivity|]. exists k. split; [reflexivity|]. right. auto.
       * right. repeat split; auto. intros k' Hk. inversion Hk; subst. exact L.
-    + destruct (k_limit k && negb (existsb f_pred (k_fields k) || subject_is_issuer c)); [contradiction|].
+    + destruct (k_limit k && negb (existsb f_pred (k_fields k) || subject_is_issuer c || memN 3 (c_proofs c))); [contradiction|].
       destruct (k_limit k || existsb f_pred (k_fields k)) eqn:E.
       * destruct H as [H|[]]. subst w. simpl. split; [reflexivity|]. left. split; [reflexivity|]. exists k. auto.
       * destruct H as [H|[]]. subst w. simpl. split; [reflexivity|]. right. repeat split; auto.
